@@ -5587,6 +5587,11 @@ class Entity(object, metaclass=EntityMeta):
             throw(TransactionError, "Object %s doesn't belong to current transaction" % safe_repr(obj))
         assert obj._save_pos_ is not None, 'save_pos is None for %s object' % obj._status_
         assert not cache.saved_objects
+        if obj._status_ == 'marked_to_delete':
+            # the DELETE must not overtake the UPDATEs / DELETEs which delete() queued before it to unlink or
+            # remove the objects referring to this one: save the whole queue in its order
+            cache.flush()
+            return
         with cache.flush_disabled():
             objects = [ obj ]
             for obj2 in objects:  # grows: newly created objects which obj2._save_() will insert first
